@@ -48,7 +48,11 @@ Proof.
 Qed.
 
 Lemma inverted_refines : refines_op Inverted.
-Proof. start. simpl. rewrite items_from_pairs. split; [exact Hs | reflexivity]. Qed.
+Proof.
+  start. simpl. change (m_items s) with (abs s). destruct (existsb unhashable (map snd (abs s))).
+  - reflexivity.
+  - rewrite items_from_pairs. split; [exact Hs | reflexivity].
+Qed.
 
 Lemma sorted_refines f rv : refines_op (Sorted f rv).
 Proof. start. simpl. rewrite items_from_pairs. split; [exact Hs | reflexivity]. Qed.
